@@ -701,6 +701,7 @@ func (i *interpreter) assertion(fr *frame, label string, cond value, kf string, 
 		neg = mkAnd(neg, mkNot(rt))
 	}
 	r, vals := st.sol.check(neg, st.inputTerms())
+	st.hr.dumpQuery(st, label, neg, r)
 	switch r {
 	case resSat:
 		st.violations = append(st.violations, st.mkViolation(label, "", vals, neg))
